@@ -722,4 +722,233 @@ theorem specSet_graft (v : Node) (final : Text) (ks : List Text) : ∀ (kids sub
       simp only [specSet, List.cons_append, specSetK_node v kids sub1 k (r ++ [final]) (by simp) hk, hs',
         Option.map_some, graft, hk, Option.getD_some, e]
 
+mutual
+  /-- a mutation that only touches `attrpath_order` is invisible to Nix -/
+  theorem denote_updSet_orderOnly (c : Nat) (g : Node → Node)
+      (hg : ∀ s vs o m r, ∃ o', g (.set s vs o m r) = .set s vs o' m r) :
+      (x : Node) → denote (updSet c g x) = denote x ∧ denoteI (updSet c g x) = denoteI x
+    | .atom _ => ⟨rfl, rfl⟩
+    | .ident _ => ⟨rfl, rfl⟩
+    | .inherit _ _ => ⟨rfl, rfl⟩
+    | .entry _ _ _ _ => ⟨rfl, rfl⟩
+    | .set s vs o m r => by
+      by_cases h : s = c
+      · obtain ⟨o', e⟩ := hg s vs o m r
+        simp only [updSet, h, if_true]
+        rw [← h, e]; exact ⟨rfl, rfl⟩
+      · exact ⟨by simp only [updSet, h, if_false, denote_set, denoteL_updSetL_orderOnly c g hg vs],
+               by simp only [updSet, h, if_false]; rfl⟩
+    | .bind i n ne val b a => by
+      constructor
+      · simp only [updSet]; rfl
+      · simp only [updSet, denoteI_bind, (denote_updSet_orderOnly c g hg val).1]
+  theorem denoteL_updSetL_orderOnly (c : Nat) (g : Node → Node)
+      (hg : ∀ s vs o m r, ∃ o', g (.set s vs o m r) = .set s vs o' m r) :
+      (xs : List Node) → denoteL (updSetL c g xs) = denoteL xs
+    | [] => rfl
+    | x :: xs => by
+      simp only [updSetL, denoteL_cons, (denote_updSet_orderOnly c g hg x).2,
+        denoteL_updSetL_orderOnly c g hg xs]
+end
+
+theorem ordF_orderOnly (x : Node) : ∀ s vs o m r, ∃ o', ordF x (.set s vs o m r) = .set s vs o' m r := by
+  intro s vs o m r; simp only [ordF]; split <;> exact ⟨_, rfl⟩
+
+theorem inheritMentions_allBind (vs : List Node) (k : Text) (h : vs.all isBind = true) :
+    inheritMentions vs k = false := by
+  induction vs with
+  | nil => rfl
+  | cons x r ih =>
+    simp only [List.all_cons, Bool.and_eq_true] at h
+    simp only [inheritMentions, List.any_cons, Bool.or_eq_false_iff]
+    refine ⟨?_, ih h.2⟩
+    cases x <;> simp [isBind] at h ⊢
+
+theorem findNamedBinding_of_findBinding (vs : List Node) (k : Text) (b : Node)
+    (h : findBinding vs k = some b) :
+    (findNamedBinding vs k (some true)).isSome = true ∨ (findNamedBinding vs k (some false)).isSome = true := by
+  obtain ⟨i, ne, val, bf, af, pre, post, rfl, hvs, _⟩ := findBinding_some _ _ _ h
+  have hm : Node.bind i k ne val bf af ∈ vs := by rw [hvs]; simp
+  cases ne with
+  | true =>
+    left
+    simp only [findNamedBinding, List.find?_isSome]
+    exact ⟨_, hm, by simp [isBind, bindName?, bindNested]⟩
+  | false =>
+    right
+    simp only [findNamedBinding, List.find?_isSome]
+    exact ⟨_, hm, by simp [isBind, bindName?, bindNested]⟩
+
+/-- the family sets: only bindings inside, recursively -/
+def FamSet (n : Node) : Prop := n.setValues.all isBind = true ∧ famOK n = true
+
+theorem famOKL_mem (vs : List Node) (x : Node) (h : famOKL vs = true) (hx : x ∈ vs) : famOK x = true := by
+  induction vs with
+  | nil => simp at hx
+  | cons y r ih =>
+    simp only [famOKL, Bool.and_eq_true] at h
+    rcases List.mem_cons.mp hx with e | hm
+    · rw [e]; exact h.1
+    · exact ih h.2 hm
+
+theorem famSet_child (s : Nat) (vs o : List Node) (m r : Bool) (i : Nat) (k : Text) (val : Node) (bf af : Payload)
+    (h : famOK (.set s vs o m r) = true) (hm : .bind i k true val bf af ∈ vs) :
+    ∃ s2 vs2 m2 r2, val = .set s2 vs2 [] m2 r2 ∧ FamSet val := by
+  have := famOKL_mem vs _ (by simpa [famOK] using h) hm
+  simp only [famOK, Bool.not_true, Bool.false_or, Bool.and_eq_true] at this
+  obtain ⟨h1, h2⟩ := this
+  cases val with
+  | set s2 vs2 o2 m2 r2 =>
+    simp only [Bool.and_eq_true, List.isEmpty_iff] at h2
+    obtain ⟨rfl, h3⟩ := h2
+    exact ⟨s2, vs2, m2, r2, rfl, h3, h1⟩
+  | _ => simp at h2
+
+/-- the tail of `_set_attrpath_value` when the leaf is new -/
+def attrFresh (tsSid csid : Nat) (segs : List Text) (final : Text) (v : Node) : EditM Unit := do
+  let bid ← fresh
+  let nb := Node.bind bid final false v [] []
+  appendValue csid nb
+  appendOrderIfNonEmpty tsSid (.entry segs nb none none)
+
+/-- the last step of `_set_attrpath_value` ran on the family set `cur` from `d1` and ended in `d'` -/
+def FinalAttr (tsSid : Nat) (segs : List Text) (cur : Node) (final : Text) (v : Node) (d1 d' : Doc) : Prop :=
+  findNamedBinding cur.setValues final (some true) = none ∧
+  (∀ b bid, findNamedBinding cur.setValues final (some false) = some b → b.bindId? = some bid →
+    d' = d1.updBind bid v) ∧
+  (findNamedBinding cur.setValues final (some false) = none → ∀ csid, cur.setSid? = some csid →
+    attrFresh tsSid csid segs final v d1 = (.ok (), d'))
+
+theorem findBinding_none_of_named (vs : List Node) (k : Text)
+    (h1 : findNamedBinding vs k (some true) = none) (h2 : findNamedBinding vs k (some false) = none) :
+    findBinding vs k = none := by
+  cases hf : findBinding vs k with
+  | none => rfl
+  | some b =>
+    rcases findNamedBinding_of_findBinding vs k b hf with h | h
+    · simp [h1] at h
+    · simp [h2] at h
+
+theorem finalAttr_denote (tsSid : Nat) (segs : List Text) (cur : Node) (q : List Text) (final : Text) (v : Node)
+    (d1 d' : Doc) (hid : IdsOK d1.target) (hk : KeysOK d1.target) (hq : subAt d1.target q = some cur)
+    (hset : cur.isSet = true) (hall : cur.setValues.all isBind = true)
+    (hfa : FinalAttr tsSid segs cur final v d1 d') :
+    Frame d1 d' ∧
+    denote d'.target = graft q (.node (Kids.upsert final (denote v) (denote cur).kids)) (denote d1.target) := by
+  obtain ⟨c, vs, o, m, r, rfl⟩ := (isSet_iff cur).mp hset
+  have htp := treeAt_denote q d1.target _ hk hq
+  have hn := nodup_treeAt q _ _ htp hk
+  simp only [denote_set, AttrTree.nodup_node] at hn
+  obtain ⟨h1, h2, h3⟩ := hfa
+  cases hf : findNamedBinding (Node.set c vs o m r).setValues final (some false) with
+  | some b =>
+    obtain ⟨i, val, bf, af, rfl, hm⟩ := findNamedBinding_some _ _ _ _ hf
+    have := h2 _ i hf rfl
+    subst this
+    refine ⟨Frame.updBind _ _ _, ?_⟩
+    simp only [Doc.updBind_target]
+    rw [denote_updBind_at v q d1.target _ final _ i hid hk hq (findBinding_of_mem vs final i false val bf af hn hm) rfl,
+      graft_append q [final] _ _ _ htp, denote_set, graft_single]
+    rfl
+  | none =>
+    have e := h3 hf c rfl
+    have hnone := findBinding_none_of_named _ _ h1 hf
+    have hkk : final ∉ Kids.keys (denoteL vs) :=
+      not_mem_keys_denoteL final vs (findBinding_none _ _ hnone) (inheritMentions_allBind vs final hall)
+    simp only [attrFresh, EditM.bind_apply, fresh_apply, appendValue_eq, appendOrder_eq] at e
+    injection e with _ e
+    subst e
+    refine ⟨(Frame.next d1 _).trans ((Frame.updSet _ _ _).trans (Frame.updSet _ _ _)), ?_⟩
+    simp only [Doc.updSet_target]
+    rw [(denote_updSet_orderOnly tsSid _ (ordF_orderOnly _) _).1,
+      denote_updSet_at _ q d1.target _ c hid hk hq rfl]
+    simp only [appF, denote_set, denoteL_append, denoteL_cons, denoteI_bind, denoteL_nil, List.append_nil,
+      AttrTree.kids, Kids.upsert_of_not_mem final _ _ hkk]
+
+theorem setAttrpathWalk_nil (cur : Node) (d : Doc) : setAttrpathWalk cur [] d = (.ok cur, d) := rfl
+
+/-- Lemma AN: the loop of `_set_attrpath_value` from the family set at path `p`, followed by its last
+    step, refines `specSetK` below `p`. -/
+theorem attr_set_refines (tsSid : Nat) (segs : List Text) (final : Text) (v : Node) (ks : List Text) :
+    ∀ (d : Doc) (cur : Node) (p : List Text) (current : Node) (d1 d' : Doc),
+    Inv d.target d.next (2 * ks.length) → subAt d.target p = some cur → cur.isSet = true → FamSet cur →
+    setAttrpathWalk cur ks d = (.ok current, d1) →
+    FinalAttr tsSid segs current final v d1 d' →
+    Frame d d' ∧ ∃ Y, specSetK v (denote cur).kids (ks ++ [final]) = some Y ∧
+      denote d'.target = graft p (.node Y) (denote d.target) := by
+  induction ks with
+  | nil =>
+    intro d cur p current d1 d' hinv hp hset hfam hw hfa
+    rw [setAttrpathWalk_nil] at hw
+    injection hw with h1 h2; injection h1 with h1; subst h1; subst h2
+    obtain ⟨hfr, hd⟩ := finalAttr_denote tsSid segs cur p final v d d' hinv.ids hinv.keys hp hset hfam.1 hfa
+    exact ⟨hfr, _, by simp [specSetK], hd⟩
+  | cons k ks ih =>
+    intro d cur p current d1 d' hinv hp hset hfam hw hfa
+    obtain ⟨c, vs, o, m, r, rfl⟩ := (isSet_iff cur).mp hset
+    have htp := treeAt_denote p d.target _ hinv.keys hp
+    have hcurn := nodup_treeAt p _ _ htp hinv.keys
+    simp only [denote_set, AttrTree.nodup_node] at hcurn
+    simp only [setAttrpathWalk] at hw
+    cases hg : findNamedBinding (Node.set c vs o m r).setValues k (some true) with
+    | some b =>
+      obtain ⟨i, val, bf, af, rfl, hm⟩ := findNamedBinding_some _ _ _ _ hg
+      simp only [hg, bindValue?] at hw
+      obtain ⟨s2, vs2, m2, r2, rfl, hfam2⟩ := famSet_child c vs o m r i k val bf af hfam.2 hm
+      simp only at hw
+      have hfb := findBinding_of_mem vs k i true _ bf af hcurn hm
+      have hst : stepInto (.set c vs o m r) k = some (.set s2 vs2 [] m2 r2) := by
+        simp [stepInto, setValues, hfb, bindValue?]
+      obtain ⟨_, _, _, _, i', ne, bf', af', pre, post, e, hpre⟩ := stepInto_some _ k _ hst
+      injection e with e1 e2 e3 e4 e5; subst e1 e2 e3 e4 e5
+      have hp2 : subAt d.target (p ++ [k]) = some (.set s2 vs2 [] m2 r2) := by
+        rw [subAt_append, hp]; simp [subAt, hst]
+      have hinv2 : Inv d.target d.next (2 * ks.length) :=
+        ⟨hinv.ids, hinv.keys, hinv.fresh.mono (by simp only [List.length_cons]; omega)⟩
+      obtain ⟨hfr, Y, hY, hd⟩ := ih d _ (p ++ [k]) current d1 d' hinv2 hp2 rfl hfam2 hw hfa
+      obtain ⟨hk, _⟩ := keys_split k pre post i' ne _ bf' af' hcurn
+      obtain ⟨hl, hu, _⟩ := lookup_split k (denoteL pre) (denoteL post) (denote (.set s2 vs2 [] m2 r2)) hk
+      refine ⟨hfr, Kids.upsert k (.node Y) (denoteL (pre ++ .bind i' k ne (.set s2 vs2 [] m2 r2) bf' af' :: post)), ?_, ?_⟩
+      · have hne : ks ++ [final] ≠ [] := by simp
+        simp only [denote_set, AttrTree.kids] at hY
+        rw [List.cons_append, denote_set, AttrTree.kids,
+          specSetK_node v _ (denoteL vs2) k _ hne (by simpa using hl), hY]
+        rfl
+      · rw [hd, graft_append p [k] _ _ _ htp, denote_set, graft_single]
+    | none =>
+      simp only [hg] at hw
+      cases hg2 : findNamedBinding (Node.set c vs o m r).setValues k (some false) with
+      | some b => simp [hg2] at hw
+      | none =>
+        have hnone := findBinding_none_of_named _ _ hg hg2
+        simp only [hg2, Option.isSome_none, Bool.false_eq_true, if_false, setSid?, EditM.bind_apply, fresh_apply,
+          setMultiline, appendValue_eq] at hw
+        have hkk : k ∉ Kids.keys (denoteL vs) :=
+          not_mem_keys_denoteL k vs (findBinding_none _ _ hnone) (inheritMentions_allBind vs k hfam.1)
+        have hinvK : Inv d.target d.next (2 * ks.length + 2) :=
+          ⟨hinv.ids, hinv.keys, hinv.fresh.mono (by simp only [List.length_cons]; omega)⟩
+        obtain ⟨hinv2, hp2, hden2⟩ := step_append d.target d.next (2 * ks.length) hinvK p c vs o m r hp k hkk
+          (findBinding_none _ _ hnone) true m
+          (appF (.bind (d.next + 1) k true (.set d.next [] [] m false) [] []))
+          (fun vs o m r => ⟨_, rfl⟩)
+        generalize hd2 : (({ d with next := d.next + 1 + 1 } : Doc).updSet c
+          (appF (.bind (d.next + 1) k true (.set d.next [] [] m false) [] []))) = d2 at hw
+        have ht2 : d2.target = updSet c (appF (.bind (d.next + 1) k true (.set d.next [] [] m false) [] [])) d.target := by
+          rw [← hd2]; rfl
+        have hn2 : d2.next = d.next + 2 := by rw [← hd2]; rfl
+        have hfr2 : Frame d d2 := by rw [← hd2]; exact (Frame.next d _).trans (Frame.updSet _ _ _)
+        rw [← ht2, ← hn2] at hinv2
+        rw [← ht2] at hp2 hden2
+        obtain ⟨hfr, Y, hY, hd⟩ := ih d2 _ (p ++ [k]) current d1 d' hinv2 hp2 rfl
+          ⟨by simp [setValues], by simp [famOK, famOKL]⟩ hw hfa
+        refine ⟨hfr2.trans hfr, Kids.upsert k (.node Y) (denoteL vs), ?_, ?_⟩
+        · have hne : ks ++ [final] ≠ [] := by simp
+          simp only [denote_set, AttrTree.kids, denoteL_nil] at hY
+          rw [List.cons_append, denote_set, AttrTree.kids,
+            specSetK_none v _ k _ hne ((Kids.lookup_eq_none_iff k _).mpr hkk), hY]
+          rfl
+        · rw [hd, hden2, graft_append_graft p [k] _ _ _ _ htp, graft_single, Kids.upsert_of_not_mem k _ _ hkk,
+            Kids.upsert_append_right k _ _ _ hkk]
+          simp
+
 end Nima
